@@ -619,10 +619,11 @@ func (vc *VC) applyContract(fr *Frame, instr ssa.Instruction, spec *FuncSpec, na
 		nf := len(vc.fatal)
 		f := vc.trBool(mkEnv(st, pre, results), c.E)
 		if len(vc.fatal) > nf {
-			onlyUnknown := true
+			// (errors that follow from the unresolved name — a selector or slice on the placeholder — are part of the same cause)
+			onlyUnknown := false
 			for _, m := range vc.fatal[nf:] {
-				if !strings.HasPrefix(m, "spec: unknown identifier") {
-					onlyUnknown = false
+				if strings.HasPrefix(m, "spec: unknown identifier") {
+					onlyUnknown = true
 				}
 			}
 			if onlyUnknown {
